@@ -27,6 +27,29 @@ type Engine struct {
 	inlineAll      bool
 	checkGuards    bool
 	fieldWritten   map[string]map[int]bool
+	// seenLocals: the named locals (in order, with their types) of every function that was given a frame in this
+	// session; localAliases: the same as recorded when the claims were last taken. A contract identifier that names
+	// no local of the current function is looked up by position there (renamed locals, see (*EvalCtx).local).
+	seenLocals   map[string][]localSig
+	localAliases map[string][]localSig
+}
+
+type localSig struct {
+	Name string `json:"name"`
+	Type string `json:"type"`
+}
+
+// localsOf: the named local variables of fn in the order of their allocation instructions.
+func localsOf(fn *ssa.Function) []localSig {
+	var out []localSig
+	for _, b := range fn.Blocks {
+		for _, ins := range b.Instrs {
+			if a, ok := ins.(*ssa.Alloc); ok && a.Comment != "" {
+				out = append(out, localSig{a.Comment, a.Type().String()})
+			}
+		}
+	}
+	return out
 }
 
 func (e *Engine) pkgOf(fn *ssa.Function) *packages.Package {
